@@ -284,6 +284,46 @@ m("c01_cfg_suffix_trimmed", "C01", r"C01\.CFG:suffix-rule:plain-ends_with", "the
   "tera/src/tera.rs", "tpl_name.ends_with(s.as_ref())", "tpl_name.to_lowercase().ends_with(s.as_ref())")
 m("c10_add_file_ok_none", "C10", r"C10\.UNDO:add_file:returns-previous", "add_file reports 'was absent' whatever it replaced",
   "tera/src/tera.rs", "        let previous = self.templates.insert(key.clone(), template);\n        Ok((key, previous))", "        let _previous = self.templates.insert(key.clone(), template);\n        Ok((key, None))")
+m("c12_note_component_question_mark", "C12", r"C12\.NOTE:vm:render_component#\d:error-exit-through-note-site", "a component error is propagated with ? before the note is added",
+  "tera/src/vm/interpreter.rs", """                let val = match self.render_component(&component_chunk, context) {
+                    Ok(v) => v,
+                    Err(mut e) => {""", """                let val = match self.render_component(&component_chunk, context) {
+                    Ok(v) => v,
+                    Err(e) if $has_body => return Err(e),
+                    Err(mut e) => {""")
+m("c13_float_float_bits", "C13", r"C13\.CMP:.*no-bit-pattern-order", "two floats of equal sign are compared through their bits",
+  "tera/src/value/mod.rs", """                let ord = a
+                    .partial_cmp(b)
+                    .unwrap_or_else(|| match (a.is_nan(), b.is_nan()) {""", """                if a.is_sign_positive() && b.is_sign_positive() {
+                    return Some(a.to_bits().cmp(&b.to_bits()));
+                }
+                let ord = a
+                    .partial_cmp(b)
+                    .unwrap_or_else(|| match (a.is_nan(), b.is_nan()) {""")
+m("c16_unique_string_shadow_set", "C16", r"C16\.ORDUSE:unique:decided-by-the-value-set-alone", "unique also remembers the printed form of what it has seen",
+  "tera/src/filters.rs", """    for v in val {
+        if !seen.contains(v) {
+            seen.insert(v.clone());
+            res.push(v.clone());
+        }
+    }
+
+    res""", """    let mut printed = BTreeSet::new();
+    for v in val {
+        if !seen.contains(v) && printed.insert(v.to_string()) {
+            seen.insert(v.clone());
+            res.push(v.clone());
+        }
+    }
+
+    res""")
+m("c18_wrap_render_empty_shortcut", "C18", r"C18\.WRAP:vm::interpreter::VirtualMachine::<'tera>::render:no-shortcut", "VM::render answers an empty string for a template without size hint, without calling render_to",
+  "tera/src/vm/interpreter.rs", """        let mut output = Vec::with_capacity(self.template.size_hint());
+        self.render_to(None, context, global_context, &mut output)?;""", """        if self.template.size_hint() == 0 && self.template.parents.is_empty() {
+            return Ok(String::new());
+        }
+        let mut output = Vec::with_capacity(self.template.size_hint());
+        self.render_to(None, context, global_context, &mut output)?;""")
 # ---------------------------------------------------------------- C05
 m("c05_iso_global", "C05", r"C05\.ISO:writer:global_context", "render_component gives the component the global context",
   "tera/src/vm/interpreter.rs", """        let mut state = State::new_with_chunk(&context, chunk);
